@@ -21,8 +21,8 @@ PID = "C10"
 LEVEL = "model_checking"
 DESIGN_REF = "DESIGN.md section 4 / C10"
 CHUNK = 1
-RULE = ("BFS over all abstract memory states (tuples of <= maxcor accepted letters) x 7 "
-        "candidate letters (4 positive-curvature, 3 rejected kinds: y=0, s.y<0, s.y=0), "
+RULE = ("BFS over all abstract memory states (tuples of <= maxcor accepted letters) x 8 "
+        "candidate letters (4 positive-curvature, 4 rejected kinds: y=0, s.y<0, s.y=0, s.y=NaN), "
         "maxcor in 1..3, every edge executed on the real update_lbfgs_matrices by replay; "
         "plus ALL letter sequences to depth maxcor+2 (quick) / 5 (thorough) compared with "
         "the canonical history of their model state; plus 40-step cyclic sequences for "
@@ -37,7 +37,7 @@ EPS = 2.2e-16
 
 
 def alphabet(v):
-    """7 candidate moves (s, y) relative to the last retained point."""
+    """8 candidate moves (s, y) relative to the last retained point."""
     if v == 1:
         n = 2
         e = np.eye(n)
@@ -64,11 +64,15 @@ def alphabet(v):
              "d": (np.array([0.2, -0.3, 0.6]) * sc, np.array([0.5, -0.1, 3.0]) / sc * 1.0),
              "z": (e[2] * 0.4, np.zeros(n)), "n": (e[1] * 0.4, -e[1] * 0.8),
              "o": (e[0] * 0.3, e[1] * 0.5)}
+    # non-finite candidate: a gradient with a NaN component (s.y is NaN, which does not
+    # satisfy s.y > eps*y.y)
+    e = np.eye(n)
+    A["q"] = (e[0] * 0.2 + e[1] * 0.1, e[0] * 0.3 + e[1] * np.nan)
     return n, A
 
 
 ACC = "abcd"
-REJ = "zno"
+REJ = "znoq"
 OPS = ACC + REJ
 
 
@@ -186,8 +190,13 @@ class Mem:
         ss, yy = xk - self.X[-1], gk - self.G[-1]
         acc = float(ss @ yy) > EPS * float(yy @ yy)
         before = snapshot(self.X, self.G, self.mats)
-        ret = update_lbfgs_matrices(xk.copy(), gk.copy(), self.X, self.G, self.maxcor,
-                                    self.mats, False)
+        try:
+            ret = update_lbfgs_matrices(xk.copy(), gk.copy(), self.X, self.G, self.maxcor,
+                                        self.mats, False)
+        except core.CaseTimeout:
+            raise
+        except Exception as e:
+            return [("update_raised", dict(exc=repr(e), accepted_by_spec=acc))], acc
         out = []
         if ret is not self.mats:
             self.mats = ret
@@ -235,6 +244,7 @@ def long_letters(n):
     s = np.sin(0.4 * np.arange(n) + 1.0)
     L.append((s, np.zeros(n)))                      # y = 0
     L.append((s, -(Hn @ s)))                        # negative curvature
+    L.append((s, np.where(np.arange(n) == n - 1, np.nan, Hn @ s)))   # NaN component
     return L
 
 
@@ -331,7 +341,18 @@ def run(case):
     found, cnt = [], [0, 0]
     orig = M.update_lbfgs_matrices
 
+    after = [None]
+
     def wrapped(xk, gk, X, G, maxcor, mats, is_force_update, eps=EPS, **kw):
+        # between two updates nothing but the update routine may touch the memory (a
+        # rejected candidate leaves it untouched - also in the caller)
+        if after[0] is not None and len(X) and not (
+                len(after[0][0]) == len(X) and
+                all(np.array_equal(a, b) for a, b in zip(after[0][0], X)) and
+                all(np.array_equal(a, b) for a, b in zip(after[0][1], G))):
+            if len(after[0][0]) == len(X):    # (a memory reset empties it: not judged here)
+                found.append(V("memory_modified_between_two_updates", call=cnt[0] + 1,
+                               previous_accepted=after[0][2]))
         ss, yy = xk - X[-1], gk - G[-1]
         acc = float(ss @ yy) > eps * float(yy @ yy)
         before = snapshot(X, G, mats)
@@ -344,6 +365,7 @@ def run(case):
             found.append(V("rejected_candidate_changed_memory", call=cnt[0]))
         for s, d in check_state(X, G, ret, maxcor, expect, eps):
             found.append(V(s, call=cnt[0], **d))
+        after[0] = ([a.copy() for a in X], [a.copy() for a in G], bool(acc))
         return ret
     M.update_lbfgs_matrices = wrapped
     try:
